@@ -939,32 +939,91 @@ def oracle_cubic(inp, impl, fail):
                     return
 
 
-def oracle_cubic_operator(inp, impl, proc, mats, fail):
-    """get_full_coeffs and the operator get_qobjevo hands to the solvers describe the same H(t): at every merged grid point inside
-    every channel's own grid, H(t) - sum_m c_m(t) H_m is one constant operator (the drift part)"""
+CUBIC_HELD_WHAT = ("get_full_coeffs (cubic) is zero after a channel's own grid ended but the operator of get_qobjevo differs "
+                   "there")
+
+
+def _cubic_operator_devs(inp, impl, proc, mats, pts, ref_n, hold=False):
+    """max |H(t) - sum_m c_m(t) H_m - (the same at merged point ref_n)| for the merged grid points pts; c_m = rows of
+    get_full_coeffs, with hold=True replaced by the channel's last sample strictly after the channel's own last grid point"""
+    grid = impl["full"]
+    lasts = [(fr(ch["tlist"][-1]), float(fr(ch["coeff"][-1]))) for ch in inp["channels"]]
+    with warnings.catch_warnings():
+        warnings.simplefilter("ignore")
+        qe = proc.get_qobjevo(noisy=False)[0]
+
+        def rest(n):
+            t = grid[n]
+            h = np.asarray(qe(float(t)).full())
+            for m, mat in enumerate(mats["ctrl"]):
+                c = float(impl["rows"][m][n])
+                if hold and t > lasts[m][0]:
+                    c = lasts[m][1]
+                h = h - c * mat
+            return h
+
+        ref = rest(ref_n)
+        scale = max(1.0, float(np.max(np.abs(ref))))
+        return [(n, t, float(np.max(np.abs(rest(n) - ref))) / scale) for n, t in pts]
+
+
+def _cubic_points(inp, impl):
+    """merged grid points inside every channel's own grid, and (only when every grid starts at the merged start) those after the
+    first channel has ended"""
     grid = impl["full"]
     lo = max(fr(ch["tlist"][0]) for ch in inp["channels"])
     hi = min(fr(ch["tlist"][-1]) for ch in inp["channels"])
-    pts = [(n, t) for n, t in enumerate(grid) if lo <= t <= hi]
-    if len(pts) < 2:
+    inside = [(n, t) for n, t in enumerate(grid) if lo <= t <= hi]
+    after = [(n, t) for n, t in enumerate(grid) if t > hi] if (grid and lo == grid[0]) else []
+    return inside, after
+
+
+def oracle_cubic_operator(inp, impl, proc, mats, fail):
+    """get_full_coeffs and the operator get_qobjevo hands to the solvers describe the same H(t): at every merged grid point that is
+    not before the start of some channel's own grid, H(t) - sum_m c_m(t) H_m is one constant operator (the drift part).  After a
+    channel's own last grid point its row of get_full_coeffs is zero (checked by oracle_cubic), so the operator has to drop that
+    channel there as well."""
+    inside, after = _cubic_points(inp, impl)
+    if len(inside) + len(after) < 2 or not inside:
         return
     try:
-        with warnings.catch_warnings():
-            warnings.simplefilter("ignore")
-            qe = proc.get_qobjevo(noisy=False)[0]
-            ref = None
-            for n, t in pts:
-                h = np.asarray(qe(float(t)).full())
-                for m, mat in enumerate(mats["ctrl"]):
-                    h = h - float(impl["rows"][m][n]) * mat
-                if ref is None:
-                    ref = h
-                elif float(np.max(np.abs(h - ref))) > 1e-9 * max(1.0, float(np.max(np.abs(ref)))):
-                    fail("get_full_coeffs (cubic) and the operator of get_qobjevo disagree at a merged grid point",
-                         dict(t=str(t), max_abs_dev=float(np.max(np.abs(h - ref)))), "the same H(t)")
-                    return
+        for n, t, dev in _cubic_operator_devs(inp, impl, proc, mats, inside, inside[0][0]):
+            if dev > 1e-9:
+                fail("get_full_coeffs (cubic) and the operator of get_qobjevo disagree at a merged grid point",
+                     dict(t=str(t), max_abs_dev=dev), "the same H(t)")
+                return
+        bad = [(t, dev) for n, t, dev in _cubic_operator_devs(inp, impl, proc, mats, after, inside[0][0]) if dev > 1e-9] \
+            if after else []
+        if bad:
+            fail(CUBIC_HELD_WHAT, dict(times=[str(t) for t, _ in bad], max_abs_dev=max(d for _, d in bad)),
+                 "the same H(t): drift + sum of (row of get_full_coeffs) x (control operator)")
     except Exception as e:
         fail("get_qobjevo raised on a valid cubic input", repr(e)[:200], "an operator")
+
+
+def _classify_cubic_held(inp):
+    """True iff the only mismatching merged points lie strictly after the own last grid point of a channel with a non-zero last
+    sample, and the operator agrees once the rows of exactly those channels hold their last sample there"""
+    if inp.get("kind") != "cubic":
+        return False
+    impl, proc, mats = run_impl(inp)
+    if impl["full"] is None or impl["rows"] is None or proc is None or mats is None:
+        return False
+    probe = []
+    oracle_cubic(inp, impl, lambda *a: probe.append(a))
+    if probe:
+        return False
+    inside, after = _cubic_points(inp, impl)
+    if not inside or not after:
+        return False
+    pts = inside + after
+    plain = _cubic_operator_devs(inp, impl, proc, mats, pts, inside[0][0])
+    held = _cubic_operator_devs(inp, impl, proc, mats, pts, inside[0][0], hold=True)
+    bad = [t for n, t, dev in plain if dev > 1e-9]
+    if not bad or any(dev > 1e-9 for n, t, dev in held):
+        return False
+    ends = [fr(ch["tlist"][-1]) for ch in inp["channels"] if fr(ch["coeff"][-1]) != 0]
+    return all(any(t > e for e in ends) for t in bad)
 
 
 # ------------------------------------------------------------------------------------------------
@@ -1754,6 +1813,11 @@ def _classify(failure):
         return "read-coeff-returns-method"
     if "inctime=False" in what and len(inp["channels"]) == 1:
         return "read-coeff-single-column"
+    if what == CUBIC_HELD_WHAT:
+        try:
+            return "cubic-channel-held-after-its-grid" if _classify_cubic_held(inp) else None
+        except Exception:
+            return None
     if any(k in what for k in ("resampled coefficient", "analytic evolution", "solver operator", "solver evolution",
                                "changes the evolution", "carries other coefficients")):
         z, changed = _zero_tails(inp)
